@@ -195,3 +195,79 @@ def run(ctx: Ctx):
                 'or more than one sample (batch cases)')
     run_shapes(ctx)
     run_batches(ctx)
+    run_nan_batches(ctx)
+    run_positional_keys(ctx)
+
+
+def run_nan_batches(ctx: Ctx):
+    """a batch in which one sample makes an upstream model return NaN: the other samples must be what they are alone"""
+    from amisc import Component, System, Variable
+    rng = ctx.rng
+    for n in range(ctx.pick(8, 60)):
+        x = Variable('x', domain=(0, 1)); z = Variable('z', domain=(0, 1))
+        u = Variable('u', domain=(-5, 5)); v = Variable('v', domain=(-9, 9))
+
+        def up(inputs):
+            xv = np.asarray(inputs['x'], dtype=float)
+            return {'u': np.where(xv > 0.5, np.nan, 2.0 * xv)}
+
+        def down(inputs):
+            return {'v': np.asarray(inputs['u'], dtype=float) + 3.0 * np.asarray(inputs['z'], dtype=float)}
+        vec = rng.random() < 0.5
+        if vec:
+            A = Component(up, [x], [u], name='up', vectorized=True); B = Component(down, [u, z], [v], name='down', vectorized=True)
+        else:
+            def up1(inputs):
+                return {'u': float('nan') if float(inputs['x']) > 0.5 else 2.0 * float(inputs['x'])}
+
+            def down1(inputs):
+                return {'v': float(inputs['u']) + 3.0 * float(inputs['z'])}
+            A = Component(up1, [x], [u], name='up', vectorized=False); B = Component(down1, [u, z], [v], name='down', vectorized=False)
+        system = System(A, B, name=f'nb{n}')
+        N = rng.randint(2, 6)
+        xs = {'x': np.array([rng.choice([0.125, 0.25, 0.375, 0.75]) for _ in range(N)]), 'z': np.array([rng.random() for _ in range(N)])}
+        xs['x'][rng.randrange(N)] = 0.75
+        case = {'nan_batch': n, 'vectorized': vec, 'x': xs['x'].tolist(), 'z': xs['z'].tolist()}
+        ctx.case(case, nontrivial=True, kind='nan-batch')
+        try:
+            y = system.predict(xs, use_model='best', normalized_inputs=False)
+        except Exception as e:
+            ctx.violate('C10:predict-raises', f'{type(e).__name__}: {e}', case); continue
+        for j in range(N):
+            ys = system.predict({k: a[j:j + 1] for k, a in xs.items()}, use_model='best', normalized_inputs=False)
+            for k in y:
+                if not systems.floats_close(np.ravel(y[k])[j], np.ravel(ys[k])[0]):
+                    ctx.violate('C10:batch-vs-single', f'sample {j} of {k}: {float(np.ravel(y[k])[j])} in a batch containing a NaN-producing sample, '
+                                f'{float(np.ravel(ys[k])[0])} alone', case); break
+
+
+def run_positional_keys(ctx: Ctx):
+    """a model with a positional signature called through the component wrapper: the key order of the input dict is irrelevant,
+    serially and through an executor"""
+    from concurrent.futures import ThreadPoolExecutor
+    from amisc import Component
+    import unpacked_models as um
+    rng = ctx.rng
+    comp = Component(um.third, name='third')
+    names = [str(v) for v in comp.inputs]
+    for n in range(ctx.pick(6, 40)):
+        N = rng.randint(1, 4)
+        vals = {k: np.array([float(rng.randint(-4, 8)) / 2 for _ in range(N)]) for k in names}
+        want = um.expected  # not used directly: third's own formulas below
+        y2 = vals['x1'] + 2.0 * vals['y1'] - vals['y0']; y3 = vals['x1'] * 4.0 + vals['y0']
+        for perm in itertools.permutations(names):
+            d = {k: vals[k] for k in perm}
+            case = {'positional_call': n, 'key_order': list(perm), 'values': {k: v.tolist() for k, v in vals.items()}}
+            ctx.case(case, nontrivial=list(perm) != names, kind='positional-keys')
+            for label, kw in (('serial', {}), ('executor', 'pool')):
+                try:
+                    if kw == 'pool':
+                        with ThreadPoolExecutor(max_workers=2) as pool:
+                            out = comp.call_model(dict(d), executor=pool)
+                    else:
+                        out = comp.call_model(dict(d))
+                except Exception as e:
+                    ctx.violate('C10:call_model-raises', f'{label}: {type(e).__name__}: {e}', case); continue
+                if not (systems.floats_close(out['y2'], y2) and systems.floats_close(out['y3'], y3)):
+                    ctx.violate('C10:key-order-changes-result', f'{label} call with key order {list(perm)}: y2={np.asarray(out["y2"]).tolist()} '
+                                f'y3={np.asarray(out["y3"]).tolist()}, expected {y2.tolist()} {y3.tolist()}', case)
